@@ -82,7 +82,7 @@ func genC13(rng *rand.Rand, c *Case) {
 		case k < 12:
 			c.Ops = append(c.Ops, Op{C: n, K: "adminflag", N: []int{rng.Intn(n), rng.Intn(2)}})
 		case k < 13:
-			if rng.Intn(2) == 0 {
+			if rng.Intn(4) != 0 {
 				// becomes active again at the very instant the server's idle check marks it away
 				c.Ops = append(c.Ops, Op{C: ci, K: "idlerace"})
 			} else {
@@ -107,6 +107,12 @@ func genC13(rng *rand.Rand, c *Case) {
 			if rng.Intn(3) == 0 {
 				c.Ops = append(c.Ops, Op{C: ci, K: []string{"quit", "reset"}[rng.Intn(2)]})
 			}
+		}
+	}
+	if c.Cfg["serial"] == 1 {
+		// serial mode is where that race is judged without the known finding in the way: make sure it happens
+		for k := 0; k < 2; k++ {
+			c.Ops = append(c.Ops, Op{C: rng.Intn(n), K: "idlerace"})
 		}
 	}
 }
